@@ -1,142 +1,142 @@
 (* Model of the string part of crates/apollo-compiler/src/ast/serialize.rs:
    State (indent_prefix / indent_level; the no-indent and on_single_line modes are indent_prefix = None),
-   new_line_common, require_new_line, serialize_string_value, serialize_block_string (serialize_line, the
-   multi_line decision), can_be_block_string, serialize_description.
+   se_new_line_common, se_require_new_line, se_serialize_string_value, se_serialize_block_string (se_serialize_line, the
+   se_multi_line decision), se_can_be_block_string, se_serialize_description.
    The functions return the text they write to the output.  Definitions only. *)
 From ApolloVerif Require Import Base.Chars Str.Unescape.
 
 (* config.indent_prefix (None: newlines disabled) and the current indent_level *)
-Record ser_state := { st_prefix : option str; st_level : N }.
+Record se_state := { se_prefix : option str; se_level : N }.
 
-Definition newlines_enabled (st : ser_state) : bool :=
-  match st_prefix st with Some _ => true | None => false end.
+Definition se_newlines_enabled (st : se_state) : bool :=
+  match se_prefix st with Some _ => true | None => false end.
 
 (* for _ in 0..indent_level { write(prefix) } *)
-Definition indent_text (prefix : str) (level : N) : str :=
+Definition se_indent_text (prefix : str) (level : N) : str :=
   N.iter level (fun acc => prefix ++ acc) [].
 
-Definition new_line_common (st : ser_state) (space : bool) : str :=
-  match st_prefix st with
-  | Some prefix => [c_lf] ++ indent_text prefix (st_level st)
+Definition se_new_line_common (st : se_state) (space : bool) : str :=
+  match se_prefix st with
+  | Some prefix => [c_lf] ++ se_indent_text prefix (se_level st)
   | None => if space then [c_space] else []
   end.
 
 (* .expect(..): panics when newlines are disabled *)
-Definition require_new_line (st : ser_state) : sres str :=
-  match st_prefix st with
-  | Some prefix => SOk ([c_lf] ++ indent_text prefix (st_level st))
-  | None => SPanic
+Definition se_require_new_line (st : se_state) : su_res str :=
+  match se_prefix st with
+  | Some prefix => SuOk ([c_lf] ++ se_indent_text prefix (se_level st))
+  | None => SuPanic
   end.
 
 (* ---- the quoted form *)
-Definition hex_upper (d : N) : N := if d <? 10 then 48 + d else 55 + d.
+Definition se_hex_upper (d : N) : N := if d <? 10 then 48 + d else 55 + d.
 
 (* one character of the `loop { str.find(..) .. }`: characters matching the `find` predicate are written as
    their escape, `\u{:04X}` for the other control characters; everything else is copied *)
-Definition escape_char (c : N) : str :=
+Definition se_escape_char (c : N) : str :=
   if ((c <? c_space) && negb (c =? c_tab)) || (c =? c_quote) || (c =? c_bslash) then
-    if c =? 8 then [c_bslash; c_b]
-    else if c =? c_lf then [c_bslash; c_n]
-    else if c =? 12 then [c_bslash; c_f]
-    else if c =? c_cr then [c_bslash; c_r]
+    if c =? 8 then [c_bslash; su_c_b]
+    else if c =? c_lf then [c_bslash; su_c_n]
+    else if c =? 12 then [c_bslash; su_c_f]
+    else if c =? c_cr then [c_bslash; su_c_r]
     else if c =? c_quote then [c_bslash; c_quote]
     else if c =? c_bslash then [c_bslash; c_bslash]
-    else [c_bslash; c_u; 48; 48; hex_upper (c / 16); hex_upper (c mod 16)]
+    else [c_bslash; su_c_u; 48; 48; se_hex_upper (c / 16); se_hex_upper (c mod 16)]
   else [c].
 
-Definition quoted_form (s : str) : str := [c_quote] ++ flat_map escape_char s ++ [c_quote].
+Definition se_quoted_form (s : str) : str := [c_quote] ++ flat_map se_escape_char s ++ [c_quote].
 
 (* ---- the block form *)
 
 (* str.split('\n') *)
-Fixpoint split_lf (s : str) : list str :=
+Fixpoint se_split_lf (s : str) : list str :=
   match s with
   | [] => [[]]
   | c :: r =>
-      if c =? c_lf then [] :: split_lf r
-      else match split_lf r with
+      if c =? c_lf then [] :: se_split_lf r
+      else match se_split_lf r with
            | l :: ls => (c :: l) :: ls
            | [] => [[c]]   (* unreachable *)
            end
   end.
 
-(* serialize_line: `while let Some((before, after)) = line.split_once(QQQ)` writes before, then \QQQ (Q = quotation mark),
+(* se_serialize_line: `while let Some((before, after)) = line.split_once(QQQ)` writes before, then \QQQ (Q = quotation mark),
    and continues after the three quotes.  skip = quotes of the occurrence still to be copied. *)
-Fixpoint serialize_line (skip : nat) (s : str) : str :=
+Fixpoint se_serialize_line (skip : nat) (s : str) : str :=
   match s with
   | [] => []
   | c :: r =>
       match skip with
-      | S k => c :: serialize_line k r
-      | O => if (c =? c_quote) && prefix_qq r then c_bslash :: c :: serialize_line 2 r
-             else c :: serialize_line 0 r
+      | S k => c :: se_serialize_line k r
+      | O => if (c =? c_quote) && su_prefix_qq r then c_bslash :: c :: se_serialize_line 2 r
+             else c :: se_serialize_line 0 r
       end
   end.
 
-Definition str_ends_with (ch : N) (s : str) : bool :=
+Definition se_ends_with (ch : N) (s : str) : bool :=
   match rev s with c :: _ => c =? ch | [] => false end.
 
-Definition multi_line (contains_newline : bool) (s : str) : bool :=
-  contains_newline || (70 <? blen s) || str_ends_with c_quote s || str_ends_with c_bslash s.
+Definition se_multi_line (contains_newline : bool) (s : str) : bool :=
+  contains_newline || (70 <? blen s) || se_ends_with c_quote s || se_ends_with c_bslash s.
 
 (* the `for line in str.split('\n')` loop *)
-Fixpoint block_lines (st : ser_state) (lines : list str) : sres str :=
+Fixpoint se_block_lines (st : se_state) (lines : list str) : su_res str :=
   match lines with
-  | [] => SOk []
+  | [] => SuOk []
   | line :: rest =>
-      sbind (match line with
-             | [] => SOk [c_lf]
-             | _ => smap (fun nl => nl ++ serialize_line 0 line) (require_new_line st)
+      su_bind (match line with
+             | [] => SuOk [c_lf]
+             | _ => su_map (fun nl => nl ++ se_serialize_line 0 line) (se_require_new_line st)
              end)
-            (fun a => smap (app a) (block_lines st rest))
+            (fun a => su_map (app a) (se_block_lines st rest))
   end.
 
-Definition qqq_text : str := [c_quote; c_quote; c_quote].
+Definition se_qqq_text : str := [c_quote; c_quote; c_quote].
 
-Definition serialize_block_string (st : ser_state) (contains_newline : bool) (s : str) : sres str :=
-  if negb (multi_line contains_newline s) then
-    SOk (qqq_text ++ serialize_line 0 s ++ qqq_text)
+Definition se_serialize_block_string (st : se_state) (contains_newline : bool) (s : str) : su_res str :=
+  if negb (se_multi_line contains_newline s) then
+    SuOk (se_qqq_text ++ se_serialize_line 0 s ++ se_qqq_text)
   else
-    sbind (block_lines st (split_lf s)) (fun body =>
-    sbind (require_new_line st) (fun nl =>
-    SOk (qqq_text ++ body ++ nl ++ qqq_text))).
+    su_bind (se_block_lines st (se_split_lf s)) (fun body =>
+    su_bind (se_require_new_line st) (fun nl =>
+    SuOk (se_qqq_text ++ body ++ nl ++ se_qqq_text))).
 
-(* ---- can_be_block_string *)
+(* ---- se_can_be_block_string *)
 
 (* lines.next_back() after lines.next(): the last line if there are at least two *)
-Definition last_after_first (lines : list str) : option str :=
+Definition se_last_after_first (lines : list str) : option str :=
   match lines with
   | _ :: (_ :: _) as rest => Some (last rest [])
   | _ => None
   end.
 
 (* line.len() - trim_start_graphql_whitespace(line).len(), for lines that are not whitespace only *)
-Definition line_indent_utf8 (line : str) : option N :=
-  if negb (is_gws_line line) then Some (count_indent line) else None.
+Definition se_line_indent_utf8 (line : str) : option N :=
+  if negb (su_is_ws_line line) then Some (su_count_indent line) else None.
 
-Definition can_be_block_string (value : str) : bool :=
+Definition se_can_be_block_string (value : str) : bool :=
   if mem c_cr value then false
   else
-    let lines := split_lf value in
-    if match lines with first :: _ => is_gws_line first | [] => false end
-       || match last_after_first lines with Some l => is_gws_line l | None => false end
+    let lines := se_split_lf value in
+    if match lines with first :: _ => su_is_ws_line first | [] => false end
+       || match se_last_after_first lines with Some l => su_is_ws_line l | None => false end
     then false
     else
-      let common_indent := match min_some (map line_indent_utf8 lines) with Some n => n | None => 0 end in
-      common_indent =? 0.
+      let su_common_indent := match su_min_some (map se_line_indent_utf8 lines) with Some n => n | None => 0 end in
+      su_common_indent =? 0.
 
-(* ---- serialize_string_value / serialize_description *)
+(* ---- se_serialize_string_value / se_serialize_description *)
 
-Definition serialize_string_value (st : ser_state) (is_description : bool) (s : str) : sres str :=
+Definition se_serialize_string_value (st : se_state) (is_description : bool) (s : str) : su_res str :=
   let contains_newline := mem c_lf s in
   let prefer_block_string := is_description || contains_newline in
-  if newlines_enabled st && prefer_block_string && can_be_block_string s
-  then serialize_block_string st contains_newline s
-  else SOk (quoted_form s).
+  if se_newlines_enabled st && prefer_block_string && se_can_be_block_string s
+  then se_serialize_block_string st contains_newline s
+  else SuOk (se_quoted_form s).
 
 (* returns the literal and the separator written after it *)
-Definition serialize_description (st : ser_state) (description : option str) : sres (str * str) :=
+Definition se_serialize_description (st : se_state) (description : option str) : su_res (str * str) :=
   match description with
-  | Some d => smap (fun lit => (lit, new_line_common st true)) (serialize_string_value st true d)
-  | None => SOk ([], [])
+  | Some d => su_map (fun lit => (lit, se_new_line_common st true)) (se_serialize_string_value st true d)
+  | None => SuOk ([], [])
   end.
